@@ -263,3 +263,25 @@ impl<V> DotBuilder for HostMatcher<V> {
         Some(node_name)
     }
 }
+
+#[cfg(feature = "verif")]
+mod verif_hooks {
+    use super::HostMatcher;
+    use crate::router::verif_hooks::VerifRouterDump;
+
+    impl<T> HostMatcher<T> {
+        pub(crate) fn verif_walk(&self, path: &str, dump: &mut VerifRouterDump) {
+            self.any_host.verif_walk(format!("{path}/host=*").as_str(), dump);
+
+            for (host, matcher) in &self.static_hosts {
+                matcher.verif_walk(format!("{path}/host={host}").as_str(), dump);
+            }
+
+            dump.trees.push((format!("{path}/host~"), self.regex_tree_rule.verif_snapshot()));
+
+            for (pattern, _, matcher) in self.regex_tree_rule.verif_entries() {
+                matcher.verif_walk(format!("{path}/host~{pattern}").as_str(), dump);
+            }
+        }
+    }
+}
